@@ -314,7 +314,9 @@ func (s *fileLoopCursor) ReadAggDataNormal() (*record.Record, *comm.FileInfo, er
 			if e = s.initCurrAggCursor(file); e != nil {
 				return nil, nil, e
 			}
-			if s.index == len(s.ctx.readers.Orders)-1 && s.ctx.querySchema.Options().IsAscending() || (s.index == 0 && !s.ctx.querySchema.Options().IsAscending()) {
+			// s.index counts the files in processing order (getFile reverses it for descending queries): the
+			// file processed last takes all remaining memtable / out-of-order rows in both directions
+			if s.index == len(s.ctx.readers.Orders)-1 {
 				s.currAggCursor.SetLastFile()
 			}
 
